@@ -28,8 +28,33 @@ func init() {
 func (p *Prog) parallelFns(r *Report, rule string) (parse, async *ssa.Function, ok bool) {
 	parse = p.method("klog/parser/engine", "ParallelBatchParser", "Parse")
 	async = p.method("klog/parser/engine", "ParallelBatchParser", "processAsync")
+	if parse != nil && async == nil {
+		// the fan-out/collect part written out in Parse itself: the go statements are there
+		if len(goSites(parse)) > 0 {
+			async = parse
+		}
+	}
 	ok = r.anchorFn(rule, parse, "engine.ParallelBatchParser.Parse") && r.anchorFn(rule, async, "engine.ParallelBatchParser.processAsync")
 	return
+}
+
+// workerLiteral: the per-batch worker — the function literal handed to processAsync, or, where
+// the fan-out is written out in Parse itself, the literal of type func(int, string) batchResult
+// that the goroutines call.
+func (p *Prog) workerLiteral(parse, async *ssa.Function) *ssa.Function {
+	var work *ssa.Function
+	if async != parse {
+		for _, c := range callsTo(parse, async) {
+			work = funcLiteral(c.Common().Args[len(c.Common().Args)-1])
+		}
+		return work
+	}
+	for _, a := range parse.AnonFuncs {
+		if len(a.Params) == 2 && a.Signature.Results().Len() == 1 && typeNameOf(a.Signature.Results().At(0).Type()) == "batchResult" {
+			work = a
+		}
+	}
+	return work
 }
 
 // goSites lists the go statements of f with the function literal they start.
@@ -121,9 +146,7 @@ func ruleP07IndexOrder(p *Prog, r *Report) {
 	}
 	// the index field is initialised from the worker function's batch-index parameter
 	var work *ssa.Function
-	for _, c := range callsTo(parse, async) {
-		work = funcLiteral(c.Common().Args[len(c.Common().Args)-1])
-	}
+	work = p.workerLiteral(parse, async)
 	if work == nil {
 		r.undecided(rule, "work", p.pos(parse.Pos()), "the work function passed to processAsync is not a function literal")
 		return
@@ -156,7 +179,9 @@ func ruleP07IndexOrder(p *Prog, r *Report) {
 			}
 			if strip(c.Call.Args[0]) == ssa.Value(lit.Params[0]) && strip(c.Call.Args[1]) == ssa.Value(lit.Params[1]) {
 				// callee is the captured work function
-				if fv, ok := deref(c.Call.Value).(*ssa.Parameter); ok && fv == async.Params[2] {
+				if fv, ok := deref(c.Call.Value).(*ssa.Parameter); ok && async != parse && fv == async.Params[2] {
+					okFwd = true
+				} else if async == parse && funcLiteral(deref(c.Call.Value)) == work {
 					okFwd = true
 				} else if _, ok := strip(c.Call.Value).(*ssa.UnOp); ok {
 					okFwd = true
@@ -167,7 +192,7 @@ func ruleP07IndexOrder(p *Prog, r *Report) {
 		okArgs := len(g.Call.Args) == 2 && isRangeIndex(g.Call.Args[0])
 		if okArgs {
 			coll := rangeElemOf(g.Call.Args[1])
-			okArgs = coll != nil && strip(coll) == ssa.Value(async.Params[1])
+			okArgs = coll != nil && strip(coll) == p.batchesValue(parse, async)
 			if ia := indexOfLoad(g.Call.Args[1]); ia == nil || ia != g.Call.Args[0] {
 				okArgs = false
 			}
@@ -200,11 +225,15 @@ func isCopyOf(base ssa.Value, v ssa.Value) bool {
 
 func ruleP07HB(p *Prog, r *Report) {
 	const rule = "P07-hb"
-	_, async, ok := p.parallelFns(r, rule)
+	parse0, async, ok := p.parallelFns(r, rule)
 	if !ok {
 		return
 	}
-	batches := async.Params[1]
+	batches := p.batchesValue(parse0, async)
+	if batches == nil {
+		r.undecided(rule, "batches", p.pos(async.Pos()), "the list of batches was not found")
+		return
+	}
 	isWG := func(c ssa.CallInstruction, name string) bool {
 		g := staticCallee(c)
 		return g != nil && g.String() == "(*sync.WaitGroup)."+name
@@ -247,7 +276,7 @@ func ruleP07HB(p *Prog, r *Report) {
 	// Add(len(batches)) before the spawn loop, or Add(1) per spawn
 	okAdd := false
 	if c, isC := strip(add.Common().Args[1]).(*ssa.Call); isC {
-		if bi, isB := c.Call.Value.(*ssa.Builtin); isB && bi.Name() == "len" && strip(c.Call.Args[0]) == ssa.Value(batches) {
+		if bi, isB := c.Call.Value.(*ssa.Builtin); isB && bi.Name() == "len" && strip(c.Call.Args[0]) == batches {
 			okAdd = add.Block().Dominates(worker.Block()) && !reachableFrom(worker.Block(), nil)[add.Block()]
 		}
 	} else if k, isK := constInt(add.Common().Args[1]); isK && k == 1 {
@@ -257,7 +286,7 @@ func ruleP07HB(p *Prog, r *Report) {
 	// one goroutine per batch: the go is in the range loop over batches, unconditional
 	only, _ := onlyLoopGuards(worker.Block())
 	coll := rangeElemOf(worker.Call.Args[len(worker.Call.Args)-1])
-	r.check(only && coll != nil && strip(coll) == ssa.Value(batches), rule, "spawn", p.instrPos(worker), "one worker per batch", "not exactly one worker per batch")
+	r.check(only && coll != nil && strip(coll) == batches, rule, "spawn", p.instrPos(worker), "one worker per batch", "not exactly one worker per batch")
 	// worker: send happens before Done on all paths: Done deferred, or Done post-dominates the send and does not precede it
 	wl := funcLiteral(worker.Call.Value)
 	var send *ssa.Send
@@ -362,9 +391,7 @@ func ruleP07NoShare(p *Prog, r *Report) {
 		}
 	}
 	var work *ssa.Function
-	for _, c := range callsTo(parse, async) {
-		work = funcLiteral(c.Common().Args[len(c.Common().Args)-1])
-	}
+	work = p.workerLiteral(parse, async)
 	if work != nil {
 		roots = append(roots, work)
 	}
@@ -581,6 +608,8 @@ func ruleP07ErrMerge(p *Prog, r *Report) {
 		}
 		if c, ok := isCallTo(a.Call.Args[1], flat, 0); ok {
 			appended[strip(c.Common().Args[0])] = true
+		} else if _, fld := fieldLoad(a.Call.Args[1]); fld == "errs" {
+			appended[strip(a.Call.Args[1])] = true // a list the worker flattened already
 		}
 	}
 	// outer mapParse calls (a local function of the merge counts once per call of it)
@@ -637,9 +666,7 @@ func ruleP07ErrMerge(p *Prog, r *Report) {
 	}
 	// worker: result.errs derives from its mapParse's errors; merged via flatten(result.errs)
 	var work *ssa.Function
-	for _, c := range callsTo(parse, async) {
-		work = funcLiteral(c.Common().Args[len(c.Common().Args)-1])
-	}
+	work = p.workerLiteral(parse, async)
 	okWorker := false
 	if work != nil {
 		for _, c := range callsTo(work, mapParse) {
@@ -647,7 +674,11 @@ func ruleP07ErrMerge(p *Prog, r *Report) {
 			eachInstr(work, func(in ssa.Instruction) {
 				if st, ok := in.(*ssa.Store); ok {
 					if fa, ok := st.Addr.(*ssa.FieldAddr); ok && fieldName(fa) == "errs" {
-						if sl, ok := strip(st.Val).(*ssa.Slice); ok && e != nil && sameValue(sl.X, e) {
+						kept := strip(st.Val)
+						if fc, ok := isCallTo(kept, flat, 0); ok {
+							kept = strip(fc.Common().Args[0])
+						}
+						if sl, ok := kept.(*ssa.Slice); ok && e != nil && sameValue(sl.X, e) {
 							okWorker = true
 						}
 					}
@@ -674,6 +705,9 @@ func ruleP07ErrMerge(p *Prog, r *Report) {
 	}
 	// P07-merge-order: within the merge loop, carry results are appended before the batch's own
 	okOrder := carryBeforeBatch(parse, apps, func(a *ssa.Call) (bool, bool) {
+		if _, fld := fieldLoad(a.Call.Args[1]); fld == "errs" {
+			return false, true
+		}
 		if c, ok := isCallTo(a.Call.Args[1], flat, 0); ok {
 			arg := strip(c.Common().Args[0])
 			if _, fld := fieldLoad(arg); fld == "errs" {
@@ -730,9 +764,7 @@ func ruleP07Carry(p *Prog, r *Report) {
 		return
 	}
 	var work *ssa.Function
-	for _, c := range callsTo(parse, async) {
-		work = funcLiteral(c.Common().Args[len(c.Common().Args)-1])
-	}
+	work = p.workerLiteral(parse, async)
 	if work == nil {
 		r.undecided(rule, "work", p.pos(parse.Pos()), "work function literal not found")
 		return
@@ -1088,4 +1120,20 @@ func carryBeforeBatch(parse *ssa.Function, apps []*ssa.Call, kind func(a *ssa.Ca
 		return instrIndex(carryApp) < instrIndex(batchApp)
 	}
 	return reachableWithout(carryApp.Block(), batchApp.Block(), header) && !reachableWithout(batchApp.Block(), carryApp.Block(), header)
+}
+
+// batchesValue: the list of batch texts the workers are started for — the parameter of
+// processAsync, or, where the fan-out is written out in Parse, the result of splitIntoChunks.
+func (p *Prog) batchesValue(parse, async *ssa.Function) ssa.Value {
+	if async != parse {
+		if len(async.Params) > 1 {
+			return async.Params[1]
+		}
+		return nil
+	}
+	split := p.fn("klog/parser/engine", "splitIntoChunks")
+	for _, c := range callsTo(parse, split) {
+		return c.Value()
+	}
+	return nil
 }
